@@ -226,6 +226,15 @@ class FnCtx:
         self.cfg = CFG(self.fn)
         self.contract = prog.cs.funcs.get(fnkey) or C.FuncContract(fnkey, fnkey.split('::')[0], '', 0)
         self.opts = opts or Opts()
+        if self.contract.opts.get('merge') == 'off' or self.contract.opts.get('timeout-ms'):
+            # per-function settings from the contract: keep the arms of conditionals apart
+            # (`opt merge off`), a longer first-stage solver budget (`opt timeout-ms N`)
+            o = Opts(**self.opts.__dict__)
+            if self.contract.opts.get('merge') == 'off':
+                o.merge = False
+            if self.contract.opts.get('timeout-ms'):
+                o.timeout_ms = int(self.contract.opts['timeout-ms'])
+            self.opts = o
         self.solver = DualSolver(self.opts)
         self.results = []
         self.assumed_used = set()
